@@ -45,7 +45,7 @@ var ruleGramSync = &Rule{
 			return out
 		}
 		out.Counts["productions"] = len(g.Rules)
-		out.Floors["productions"] = 100
+		out.Floors["productions"] = 50
 		if g.SR == 0 && g.RR == 0 {
 			out.ok("grammar has no conflicts", "path/parser/grammar.y", "", "0 shift/reduce, 0 reduce/reduce")
 		} else {
@@ -354,7 +354,20 @@ type kwEntry struct {
 
 func (p *Prog) keywordTable() (map[string]kwEntry, *types.Func, error) {
 	pk := p.Pkgs[pkgParser]
-	// the function: func(string) rune with switches over string constants returning token constants
+	// candidate functions: func(string) T with switches over string constants
+	// returning token constants; one may hand its (lower-cased) word on to
+	// another (`return keywordToken(strings.ToLower(ident))`)
+	type deleg struct {
+		to      *types.Func
+		lowered bool
+	}
+	type cand struct {
+		fo   *types.Func
+		own  map[string]kwEntry
+		dels []deleg
+	}
+	cands := map[*types.Func]*cand{}
+	var order []*types.Func
 	for _, f := range pk.Syntax {
 		for _, d := range f.Decls {
 			fd, ok := d.(*ast.FuncDecl)
@@ -369,40 +382,129 @@ func (p *Prog) keywordTable() (map[string]kwEntry, *types.Func, error) {
 			if !types.Identical(sig.Params().At(0).Type(), types.Typ[types.String]) || sig.Results().Len() != 1 {
 				continue
 			}
-			tab := map[string]kwEntry{}
-			ast.Inspect(fd.Body, func(n ast.Node) bool {
-				sw, ok := n.(*ast.SwitchStmt)
-				if !ok || sw.Tag == nil {
-					return true
-				}
-				caseSens := true
-				if call, ok := sw.Tag.(*ast.CallExpr); ok {
-					if se, ok := call.Fun.(*ast.SelectorExpr); ok && se.Sel.Name == "ToLower" {
-						caseSens = false
-					}
-				}
-				for _, cl := range sw.Body.List {
-					cc := cl.(*ast.CaseClause)
-					var tok string
-					for _, st := range cc.Body {
-						if r, ok := st.(*ast.ReturnStmt); ok && len(r.Results) == 1 {
-							if id, ok := r.Results[0].(*ast.Ident); ok {
-								tok = id.Name
+			// lowered: the expression is strings.ToLower(…), or a variable
+			// only ever assigned such a call
+			var lowered func(e ast.Expr, depth int) bool
+			lowered = func(e ast.Expr, depth int) bool {
+				switch x := e.(type) {
+				case *ast.ParenExpr:
+					return lowered(x.X, depth)
+				case *ast.CallExpr:
+					if se, ok := x.Fun.(*ast.SelectorExpr); ok && se.Sel.Name == "ToLower" {
+						if id, ok := se.X.(*ast.Ident); ok {
+							if pn, ok := pk.TypesInfo.Uses[id].(*types.PkgName); ok && pn.Imported().Path() == "strings" {
+								return true
 							}
 						}
 					}
-					for _, e := range cc.List {
-						if tv, ok := pk.TypesInfo.Types[e]; ok && tv.Value != nil && tv.Value.Kind() == constant.String && tok != "" {
-							tab[constant.StringVal(tv.Value)] = kwEntry{tok, caseSens, e.Pos()}
+				case *ast.Ident:
+					obj := pk.TypesInfo.ObjectOf(x)
+					if obj == nil || depth > 2 {
+						return false
+					}
+					n, all := 0, true
+					ast.Inspect(fd.Body, func(nd ast.Node) bool {
+						switch a := nd.(type) {
+						case *ast.AssignStmt:
+							for i, l := range a.Lhs {
+								if id, ok := l.(*ast.Ident); ok && pk.TypesInfo.ObjectOf(id) == obj {
+									n++
+									if len(a.Rhs) != len(a.Lhs) || !lowered(a.Rhs[i], depth+1) {
+										all = false
+									}
+								}
+							}
+						case *ast.ValueSpec:
+							for i, id := range a.Names {
+								if pk.TypesInfo.ObjectOf(id) == obj && i < len(a.Values) {
+									n++
+									if !lowered(a.Values[i], depth+1) {
+										all = false
+									}
+								}
+							}
 						}
+						return true
+					})
+					return n > 0 && all
+				}
+				return false
+			}
+			c := &cand{fo: fo, own: map[string]kwEntry{}}
+			ast.Inspect(fd.Body, func(n ast.Node) bool {
+				switch x := n.(type) {
+				case *ast.SwitchStmt:
+					if x.Tag == nil {
+						return true
+					}
+					caseSens := !lowered(x.Tag, 0)
+					for _, cl := range x.Body.List {
+						cc := cl.(*ast.CaseClause)
+						var tok string
+						for _, st := range cc.Body {
+							if r, ok := st.(*ast.ReturnStmt); ok && len(r.Results) == 1 {
+								if id, ok := r.Results[0].(*ast.Ident); ok {
+									tok = id.Name
+								}
+							}
+						}
+						for _, e := range cc.List {
+							if tv, ok := pk.TypesInfo.Types[e]; ok && tv.Value != nil && tv.Value.Kind() == constant.String && tok != "" {
+								c.own[constant.StringVal(tv.Value)] = kwEntry{tok, caseSens, e.Pos()}
+							}
+						}
+					}
+				case *ast.ReturnStmt:
+					if len(x.Results) != 1 {
+						return true
+					}
+					call, ok := x.Results[0].(*ast.CallExpr)
+					if !ok || len(call.Args) != 1 {
+						return true
+					}
+					id, ok := call.Fun.(*ast.Ident)
+					if !ok {
+						return true
+					}
+					if to, ok := pk.TypesInfo.Uses[id].(*types.Func); ok && to != fo {
+						c.dels = append(c.dels, deleg{to, lowered(call.Args[0], 0)})
 					}
 				}
 				return true
 			})
-			if len(tab) >= 10 {
-				return tab, fo, nil
+			cands[fo] = c
+			order = append(order, fo)
+		}
+	}
+	var merged func(fo *types.Func, depth int) map[string]kwEntry
+	merged = func(fo *types.Func, depth int) map[string]kwEntry {
+		c := cands[fo]
+		if c == nil || depth > 3 {
+			return nil
+		}
+		m := map[string]kwEntry{}
+		for _, d := range c.dels {
+			for k, e := range merged(d.to, depth+1) {
+				if d.lowered {
+					e.CaseSens = false
+				}
+				m[k] = e
 			}
 		}
+		for k, e := range c.own {
+			m[k] = e
+		}
+		return m
+	}
+	var best map[string]kwEntry
+	var bestFo *types.Func
+	for _, fo := range order {
+		if m := merged(fo, 0); len(m) > len(best) {
+			best, bestFo = m, fo
+		}
+	}
+	if len(best) >= 10 {
+		return best, bestFo, nil
 	}
 	return nil, nil, fmt.Errorf("anchor unresolved: keyword table (func(string) token with switches over string constants)")
 }
@@ -978,7 +1080,7 @@ var ruleNilNode = &Rule{
 			}
 		}
 		out.Counts["node_valued_actions"] = n
-		out.Floors["node_valued_actions"] = 60
+		out.Floors["node_valued_actions"] = 20
 		return out
 	},
 }
@@ -1079,15 +1181,29 @@ var ruleOpTokens = &Rule{
 			if isRune(f.Signature.Params().At(0).Type()) && isRune(f.Signature.Results().At(0).Type()) && isRune(f.Signature.Results().At(1).Type()) {
 				// the one that compares its parameter with punctuation constants
 				n := 0
-				for _, b := range f.Blocks {
-					for _, ins := range b.Instrs {
-						if bo, ok := ins.(*ssa.BinOp); ok && bo.Op == token.EQL && bo.X == ssa.Value(f.Params[1]) {
-							if k, ok := constInt(bo.Y); ok && strings.ContainsRune("=<>!&|*", rune(k)) {
-								n++
+				var count func(g *ssa.Function, q ssa.Value, depth int)
+				count = func(g *ssa.Function, q ssa.Value, depth int) {
+					for _, b := range g.Blocks {
+						for _, ins := range b.Instrs {
+							if bo, ok := ins.(*ssa.BinOp); ok && bo.Op == token.EQL && bo.X == q {
+								if k, ok := constInt(bo.Y); ok && strings.ContainsRune("=<>!&|*", rune(k)) {
+									n++
+								}
+							}
+							// a plain function of the package that is handed the character
+							if c, ok := ins.(*ssa.Call); ok && depth == 0 {
+								if sc := c.Call.StaticCallee(); sc != nil && inlinableFn(sc, 0) && fnPkgPath(sc) == pkgParser {
+									for i, a := range c.Call.Args {
+										if a == q && i < len(sc.Params) {
+											count(sc, sc.Params[i], depth+1)
+										}
+									}
+								}
 							}
 						}
 					}
 				}
+				count(f, f.Params[1], 0)
 				if n > best {
 					fn, best = f, n
 				}
